@@ -774,7 +774,9 @@ static void runCase(long k, const Problem &p, int m0, const std::vector<POp> &op
 //    `COLA_ASSERT(cs[i]->slack()>ZERO_UPPERBOUND)` (solve_VPSC.cpp:194), e.g.
 //    --seed 3 --tier thorough --mode risky --only 131684.
 static bool heldBack(const Problem &p, int r) {
-    return p.riskyClass || (r == 2 && hasScale(p));
+    // the static solver's satisfy() never splits, so it is safe (and tied to the model) on scaled systems too;
+    // only solve() -> refine() -> Blocks::split has the scale defect
+    return p.riskyClass || (r == 2 && hasScale(p) && p.staticSolve);
 }
 
 // --mode stdin: re-run case blocks given on stdin in the harness's own line format (the input lines
